@@ -25,6 +25,8 @@
 (*                  pickle.loads(pickle.dumps(x, proto)), or both raise                   *)
 (*  "leaf"  a standard-library value (scn.kind, scn.item) bare or wrapped (scn.wrap);     *)
 (*      scn.after = "fail": on a thread whose previous remote_pickle.loads raised         *)
+(*      scn.pclass  "low" (protocols 0, 1) | "high" (2..5, None, -1); kind "copyreg_late" *)
+(*                  = the reducer was registered with copyreg.pickle() at run time        *)
 (*      obs.outcome, obs.equal_to_pickle as above                                         *)
 (*  "graph" an object graph                                                               *)
 (*      scn.g[i]    node i (numbered in the order pickle reaches them from node 1):       *)
